@@ -108,9 +108,10 @@ Hypothesis R_sym : forall a b, R a b -> R b a.
 Hypothesis R_trans : forall a b c, R a b -> R b c -> R a c.
 Hypothesis R_bin : forall k a a' b b', R a a' -> R b b' -> R (binf C k a b) (binf C k a' b').
 Hypothesis R_un : forall k a a', R a a' -> R (unf C k a) (unf C k a').
-(* the operators flagged commutative anywhere are associative modulo R *)
-Variable flagged : nat -> Prop.
-Hypothesis flagged_assoc : forall k, flagged k -> forall a b c, R (binf C k (binf C k a b) c) (binf C k a (binf C k b c)).
+(* what is required of every binary operator record; those flagged commutative are associative modulo R *)
+Variable okop : dbop -> Prop.
+Hypothesis okop_assoc : forall o, okop o -> bcomm o = true ->
+  forall a b c, R (binf C (bidx o) (binf C (bidx o) a b) c) (binf C (bidx o) a (binf C (bidx o) b c)).
 
 (* the value of a variable node (index, name): by position in an assignment (vlook), or by name *)
 Variable look : nat -> str -> D.
@@ -145,7 +146,7 @@ Fixpoint dwf (e : deepex D) : Prop :=
   match e with
   | DE nodes bops uop vars =>
       length nodes = S (length bops) /\ okvars vars /\
-      (forall o, In o bops -> bcomm o = true -> flagged (bidx o)) /\
+      (forall o, In o bops -> okop o) /\
       (fix all (l : list (dnode D)) : Prop :=
          match l with
          | [] => True
@@ -157,7 +158,7 @@ Definition nwf (n : dnode D) : Prop :=
 Lemma dwf_unfold nodes bops uop vars :
   dwf (DE nodes bops uop vars) <->
   length nodes = S (length bops) /\ okvars vars /\
-  (forall o, In o bops -> bcomm o = true -> flagged (bidx o)) /\ Forall nwf nodes.
+  (forall o, In o bops -> okop o) /\ Forall nwf nodes.
 Proof.
   cbn [dwf].
   assert (H : (fix all (l : list (dnode D)) : Prop :=
@@ -273,7 +274,7 @@ Proof.
   assert (Hlr : length rest = length (map to_fop bops)) by (rewrite map_length; cbn in Hnl; lia).
   assert (Hassoc : forall o, In o (map to_fop bops) -> fcomm o = true ->
             forall a b c, R (binf C (fidx o) (binf C (fidx o) a b) c) (binf C (fidx o) a (binf C (fidx o) b c))).
-  { intros o Ho Hc. apply in_map_iff in Ho. destruct Ho as (o' & <- & Ho'). cbn in *. apply flagged_assoc. apply Hfl; assumption. }
+  { intros o Ho Hc. apply in_map_iff in Ho. destruct Ho as (o' & <- & Ho'). cbn in *. exact (okop_assoc o' (Hfl o' Ho') Hc). }
   destruct (eval_level_is_pv C R R_refl R_sym R_trans R_bin R_un (map to_fop bops) Hassoc (dkey nodes bops)
               (dkey_cases nodes bops) (dkey_ok nodes bops) (bop_at C bops) (bop_at_op_at bops C) x rest Hlr) as (v & Ev & Rv).
   unfold prioritized_indices. rewrite map_length in Ev. rewrite Ev. cbn [bind].
@@ -281,6 +282,10 @@ Proof.
   eapply R_trans; [exact Rv|]. exact (level_val_R (x :: rest) (map nden nodes) bops HR).
 Qed.
 End DeepSem.
+
+(* an operator record as the library builds it from a table whose priorities lie in 0..99 *)
+Definition table_op (comm_of : nat -> bool) (o : dbop) : Prop :=
+  (bcomm o = true -> comm_of (bidx o) = true) /\ (0 <= bprio o <= 99)%Z.
 
 (* variables valued by position in an assignment *)
 Definition vlook {D} (C : carrier D) (vals : list D) : nat -> str -> D := fun i _ => nth i vals (dflt C).
